@@ -1,3 +1,4 @@
+import Tumfl.Props.Parse
 import Tumfl.Props.Print
 import Tumfl.Props.C08
 import Tumfl.Props.C11
@@ -15,6 +16,9 @@ import Tumfl.Props.C13
 #print axioms Tumfl.Props.C02_boundary
 #print axioms Tumfl.Props.C08_comment_wf
 #print axioms Tumfl.Props.C08_comment_text
+#print axioms Tumfl.Props.Parse_printable
+#print axioms Tumfl.Props.C10_parse_sound
+#print axioms Tumfl.Props.C03_parse_complete
 #print axioms Tumfl.Props.Print_sim
 #print axioms Tumfl.Props.Print_sim_parseToks
 #print axioms Tumfl.Props.Print_readings
